@@ -16,7 +16,7 @@ cfvars == <<cfprog, cfpc, cfstack, cfstatus>>
 
 CFMaxDepth == 8
 
-CFRegsOK(i) == (UsesDst(i.opc) => i.dst <= 10) /\ (UsesSrc(i.opc) => i.src <= 10)
+CFRegsOK(i) == (UsesDst(i.opc) => i.dst <= 10) /\ (UsesSrc(i.opc) /\ i.opc # CALL => i.src <= 10)
 
 \* why the state is stuck, or "" if some instruction semantics applies
 CFStuckReason ==
